@@ -279,7 +279,8 @@ PLAN_C09 = {
     "sims": [inter(["extend", "project"]), inter(["project", "cols"], steps=2), inter(["extend", "wextend"])],
     "backends": ("pandas", "sqlite", "polars"),
     "nontrivial": lambda c: has_op(c, ("project", "wextend")) and nt_rows(c, 2),
-    "exec_traces": ("rows",),
+    "exec_traces": ("rows:ProjectNode", "rows:ExtendNode", "rows:SelectRowsNode", "rows:SelectColumnsNode", "rows:DropColumnsNode",
+                    "rows:RenameColumnsNode", "rows:MapColumnsNode"),
     "relevant_ops": ("project", "wextend"),
     "limit": (6000, 30000),
 }
@@ -297,6 +298,7 @@ PLAN_C16 = {
     "sim": dict(what="random pipelines around natural_join", fams=JOINF, num=(1500, 5000), rows=3, steps=3, **SIMT),
     "backends": ("pandas", "sqlite", "pg", "polars"),
     "nontrivial": lambda c: has_op(c, ("join", "joinc")) and all(len(t["rows"]) >= 1 for t in c["inp"].values()),
+    "exec_traces": ("rows:NaturalJoinNode", "rows:ConcatRowsNode"),
     "relevant_ops": ("join", "joinc"),
 }
 
@@ -325,6 +327,7 @@ PLAN_C18 = {
     "backends": ("pandas", "sqlite", "polars"),
     "opts": {"variants": [None, "perm", "perm_keepidx", "dupidx", "stridx"]},
     "nontrivial": lambda c: nt_rows(c, 2),
+    "exec_traces": ("rows:OrderRowsNode",),
     "limit": (3000, 12000),
     "assumptions": ["inputs are evaluated as given, row-permuted, and (Pandas) with a shuffled integer index, duplicate "
                     "index labels and a text index; every variant must give the reference bag, and the reference "
